@@ -39,7 +39,7 @@ def _run_job(job):
             reset()
         h(e, **params)
     e = core.Engine(max_paths=job.get('max_paths'), deadline=job.get('deadline'), prefix=job.get('prefix'),
-                    split_depth=job.get('split_depth'), seed=job.get('seed', 0),
+                    fixed=job.get('fixed'), chunk=job.get('chunk'), seed=job.get('seed', 0),
                     sample_every=job.get('sample_every', 0), max_failures=job.get('max_failures', 6))
     e.twin = bool(job.get('twin'))
     if e.twin:
@@ -52,7 +52,7 @@ def _run_job(job):
         if reset:
             reset()
     r = {'job': _jobkey(job), 'stats': e.stats(), 'failures': e.failures, 'degraded': e.degraded,
-         'samples': e.samples, 'prefixes': e.prefixes if job.get('split_depth') is not None else None}
+         'samples': e.samples, 'conts': e.conts, 'idx': job.get('idx')}
     return r
 
 
@@ -65,7 +65,7 @@ def _install_twin(e):
 
 
 def _jobkey(job):
-    return {k: job[k] for k in ('harness', 'params', 'label', 'prefix', 'twin') if k in job}
+    return {k: job[k] for k in ('harness', 'params', 'label', 'twin') if k in job}
 
 
 # ------------------------------------------------------------------------------------------ replay side
@@ -207,29 +207,44 @@ def main():
 
     ctx = mp.get_context('fork')
     results, twinres = [], []
+    for i, j in enumerate(jobs):
+        j['idx'] = i
+        j.pop('split', None)
     with ctx.Pool(a.jobs) as pool:
-        # phase 1: split big jobs into prefixes
-        plain = [j for j in jobs if not j.get('split')]
-        tosplit = [dict(j, split_depth=j['split'], sample_every=0) for j in jobs if j.get('split')]
-        expanded = []
-        for j, r in zip(tosplit, pool.imap(_run_job, tosplit)):
+        # work distribution: every job explores a bounded chunk of paths and hands its pending alternatives back
+        # as continuation jobs (prefix of the decision log + index from which it may backtrack)
+        import queue as _queue
+        outq = _queue.Queue()
+        inflight = [0]
+        nfail = {}
+
+        def submit(job):
+            inflight[0] += 1
+            pool.apply_async(_run_job, (job,), callback=outq.put,
+                             error_callback=lambda ex, job=job: outq.put({'job': _jobkey(job), 'error': repr(ex), 'idx': job.get('idx')}))
+        for j in jobs:
+            submit(dict(j, chunk=24))
+        chunk = int(os.environ.get('SXV_CHUNK', '160'))
+        while inflight[0]:
+            r = outq.get()
+            inflight[0] -= 1
+            results.append(r)
             if 'error' in r:
-                results.append(r)
                 continue
-            base = {k: v for k, v in j.items() if k not in ('split_depth', 'split')}
-            base['sample_every'] = [x for x in jobs if x['label'] == j['label']][0]['sample_every']
-            # paths that ended above the split depth were completed by the splitting run itself
-            r['prefixes_n'] = len(r['prefixes'])
-            results.append(r)
-            for pfx in r['prefixes']:
-                expanded.append(dict(base, prefix=pfx))
-        allj = plain + expanded
-        # longest first is unknowable; interleave
-        for r in pool.imap_unordered(_run_job, allj, chunksize=1):
-            results.append(r)
+            if r['failures']:
+                nfail[r['idx']] = nfail.get(r['idx'], 0) + len(r['failures'])
+            if nfail.get(r['idx'], 0) >= 4:
+                continue                        # enough counterexamples for this job; do not explore further
+            base = jobs[r['idx']]
+            for pfx, fx in r['conts']:
+                submit(dict(base, prefix=pfx, fixed=fx, chunk=chunk))
         for r in pool.imap_unordered(_run_job, twins, chunksize=1):
             twinres.append(r)
 
+    if a.v:
+        slow = sorted([(r['stats']['wall'], r['job'].get('label'), r['stats']['paths'], '') for r in results if 'stats' in r], reverse=True)[:12]
+        for w, lab, np_, sp in slow:
+            print('  slow: %.1fs %s paths=%d %s' % (w, lab, np_, sp))
     errors = [r for r in results + twinres if 'error' in r]
     if errors:
         print('INCONCLUSIVE property=%s engine error:\n%s' % (prop, errors[0]['error']))
